@@ -201,7 +201,36 @@ func (g *dgen) stmt(depth int) {
 			g.feats["deleg:in-for-post"] = true
 			kind = "loop-ypost"
 		} else {
-			g.line("for %s := 0; %s < %d; %s++ {", v, v, 1+g.rng.Intn(3), v)
+			bound := 1 + g.rng.Intn(3)
+			switch g.rng.Intn(7) {
+			case 0:
+				// no condition, with a post statement: the loop is left by a break in front of the first yield
+				g.line("for %s := 0; ; %s++ {", v, v)
+				g.line("\tif tr.R(%d, %s) >= %d {", g.nid(), v, bound)
+				g.line("\t\tbreak")
+				g.line("\t}")
+				g.feats["deleg:loop-without-condition"] = true
+			case 1:
+				// init only
+				g.line("for %s := 0; ; {", v)
+				g.line("\tif %s++; tr.R(%d, %s) > %d {", v, g.nid(), v, bound)
+				g.line("\t\tbreak")
+				g.line("\t}")
+				g.feats["deleg:loop-without-condition"] = true
+			case 2:
+				// range over an integer expression whose value CHANGES during the loop (evaluated once)
+				g.line("w%s := make([]int, %d)", v, bound)
+				g.line("for %s := range len(w%s) {", v, v)
+				g.line("\tw%s = append(w%s, tr.V(%d, %s))", v, v, g.nid(), v)
+				g.feats["deleg:loop-range-int-changing-bound"] = true
+			case 3:
+				g.line("n%s := %d", v, bound)
+				g.line("for %s := range n%s {", v, v)
+				g.line("\tn%s += tr.V(%d, %s) + 1", v, g.nid(), v)
+				g.feats["deleg:loop-range-int-changing-bound"] = true
+			default:
+				g.line("for %s := 0; %s < %d; %s++ {", v, v, bound, v)
+			}
 		}
 		g.ctx = append(g.ctx, kind)
 		g.block(depth + 1)
